@@ -534,6 +534,20 @@ fn shape_cases(tier: Tier) -> Vec<Case> {
             }
         }
     }
+    // rings whose last vertex is a floating-point neighbour of the first (a different vertex: the
+    // constructors close such a ring, geo-types would close it too)
+    for ty in [Ty::Polygon, Ty::PolygonM, Ty::PolygonZ] {
+        for ulps in [1i64, 2, 4, -1, -3] {
+            for d in 0..2usize {
+                let first = [10.1f64, -3.3];
+                let mut last = first;
+                last[d] = f64::from_bits((first[d].to_bits() as i64 + ulps) as u64);
+                let near: Vec<(f64, f64)> = vec![(first[0], first[1]), (first[0], 2.0), (14.0, first[1]), (last[0], last[1])];
+                v.push(Case::Shape(MShape { ty, parts: vec![MPart { kind: 0, pts: to_p4(&near, 0) }] }));
+                v.push(Case::Shape(MShape { ty, parts: vec![MPart { kind: 0, pts: to_p4(&square(true, 0.0), 0) }, MPart { kind: 1, pts: to_p4(&near, 1) }] }));
+            }
+        }
+    }
     // multipatches: ring-only over the 4 ring kinds (<= 3 patches), and a strip / fan at every position
     for n in 1..=3usize {
         for kinds in 0..6usize.pow(n as u32) {
